@@ -104,12 +104,17 @@ func (g *SG) Prologue() []Stmt {
 		&Assign{Target: "vs", Op: "=", E: &Lit{V: "", Text: "\"\""}},
 		&Assign{Target: "vf", Op: "=", E: &Lit{V: 1.5, Text: "1.5"}},
 		&Assign{Target: "vt", Op: "=", E: &Lit{V: vt, Text: vtText}},
+		// locals bound to the VALUE of a field / element of injected data: later stores into that
+		// field / element must not change the local
+		&Assign{Target: "vh", Op: "=", E: &Ref{"H.I64"}},
+		&Assign{Target: "ve", Op: ":=", E: &Elem{Cont: "VS", KeyInt: is(1)}},
+		&Assign{Target: "vn", Op: "=", E: &Ref{"H.In.X"}},
 	}
 }
 
 // Epilogue observes the final locals.
 func (g *SG) Epilogue() []Stmt {
-	return []Stmt{g.tv(&Ref{"va"}), g.tv(&Ref{"vb"}), g.tv(&Ref{"vc"}), g.tv(&Ref{"vs"}), g.tv(&Ref{"vf"}), g.tv(&Ref{"vt"})}
+	return []Stmt{g.tv(&Ref{"va"}), g.tv(&Ref{"vb"}), g.tv(&Ref{"vc"}), g.tv(&Ref{"vs"}), g.tv(&Ref{"vf"}), g.tv(&Ref{"vt"}), g.tv(&Ref{"vh"}), g.tv(&Ref{"ve"}), g.tv(&Ref{"vn"})}
 }
 
 // Block generates a block; inLoop says whether break/continue are meaningful here.
@@ -161,7 +166,16 @@ func (g *SG) simple() Stmt {
 		k := int64(r.Intn(4))
 		return &Assign{Elem: &Elem{Cont: "VS", KeyInt: &k}, Op: []string{"=", "+=", "-="}[r.Intn(3)], E: g.smallInt(1)}
 	default:
-		return g.tv(&Ref{[]string{"va", "vb", "vc", "vs", "vf", "vt"}[r.Intn(6)]})
+		switch r.Intn(5) {
+		case 0:
+			// compound update of a local that was bound to a field value: the field stays as it is
+			g.Stats["compound_on_field_bound_local"]++
+			return &Assign{Target: []string{"vh", "ve", "vn"}[r.Intn(3)], Op: []string{"+=", "-=", "*="}[r.Intn(3)], E: ilit(int64(r.Intn(5) + 1))}
+		case 1:
+			g.Stats["rebind_from_field"]++
+			return &Assign{Target: []string{"vh", "vn"}[r.Intn(2)], Op: "=", E: &Ref{[]string{"H.I64", "H.In.X", "H.Pn.X"}[r.Intn(3)]}}
+		}
+		return g.tv(&Ref{[]string{"va", "vb", "vc", "vs", "vf", "vt", "vh", "ve", "vn"}[r.Intn(9)]})
 	}
 }
 
